@@ -893,6 +893,7 @@ func (c *ChannelWriter) alterIndex(ctx context.Context, msgBase *commonpb.MsgBas
 		return nil
 	}
 	UpdateMsgBase(alterIndexMsg.Base, msgBase)
+	sourceDBName, sourceCollectionName := alterIndexMsg.GetDbName(), alterIndexMsg.GetCollectionName()
 	alterIndexMsg.DbName, alterIndexMsg.CollectionName = c.mapDBAndCollectionName(
 		alterIndexMsg.GetDbName(), alterIndexMsg.GetCollectionName())
 	err := c.dataHandler.AlterIndex(ctx, &api.AlterIndexParam{
@@ -903,7 +904,12 @@ func (c *ChannelWriter) alterIndex(ctx context.Context, msgBase *commonpb.MsgBas
 	})
 	if err != nil {
 		log.Warn("failed to alter index", zap.Any("msg", alterIndexMsg), zap.Error(err))
-		return err
+		skip, _ := c.WaitObjReady(ctx, sourceDBName, sourceCollectionName, "", alterIndexMsg.EndTs())
+		if !skip {
+			return err
+		}
+		log.Info("collection has been dropped", zap.String("database", sourceDBName),
+			zap.String("collection", sourceCollectionName), zap.String("msg", util.Base64Msg(msg)))
 	}
 	return nil
 }
